@@ -646,10 +646,16 @@ where
                     let hash_fn: &HashFn<'static> = unsafe { std::mem::transmute(hash_fn) };
                     thread_pool.spawn_fifo(move || {
                         let _open_files_guard = RLIMIT_OPEN_FILES.clone().access_owned();
+                        #[cfg(fclones_verif)]
+                        crate::verif::jitter("rehash.task");
                         let old_hash = fg[0].file_hash.clone();
                         if let Some(hash) = hash_fn((&mut fg[0].file_info, old_hash)) {
+                            #[cfg(fclones_verif)]
+                            crate::verif::hash_done(&fg[0].file_info.path.to_escaped_string());
                             for mut f in fg {
                                 f.file_hash = hash.clone();
+                                #[cfg(fclones_verif)]
+                                crate::verif::jitter("rehash.send");
                                 tx.send(f).unwrap();
                             }
                         }
@@ -1224,9 +1230,13 @@ pub fn group_files(config: &GroupConfig, log: &dyn Log) -> Result<Vec<FileGroup<
 
     drop(spinner);
     let matching_files = scan_files(&ctx);
+    #[cfg(fclones_verif)]
+    crate::verif::sync_point("scan.done", "");
 
     let mut groups = match &ctx.hasher.transform {
         Some(_transform) => {
+            #[cfg(fclones_verif)]
+            crate::verif::set_stage("transform");
             let mut files = matching_files.into_iter().flatten().collect_vec();
             deduplicate(&mut files, |_| {});
             update_file_locations(&ctx, &mut files);
@@ -1240,8 +1250,14 @@ pub fn group_files(config: &GroupConfig, log: &dyn Log) -> Result<Vec<FileGroup<
                 .config
                 .max_prefix_size
                 .unwrap_or_else(|| prefix_len(&ctx.devices, flat_iter(&size_groups_pruned)));
+            #[cfg(fclones_verif)]
+            crate::verif::set_stage("prefix");
             let prefix_groups = group_by_prefix(&ctx, prefix_len, size_groups_pruned);
+            #[cfg(fclones_verif)]
+            crate::verif::set_stage("suffix");
             let suffix_groups = group_by_suffix(&ctx, prefix_groups);
+            #[cfg(fclones_verif)]
+            crate::verif::set_stage("contents");
             if !ctx.config.skip_content_hash {
                 group_by_contents(&ctx, prefix_len, suffix_groups)
             } else {
@@ -1249,6 +1265,10 @@ pub fn group_files(config: &GroupConfig, log: &dyn Log) -> Result<Vec<FileGroup<
             }
         }
     };
+    #[cfg(fclones_verif)]
+    crate::verif::set_stage("sort");
+    #[cfg(fclones_verif)]
+    crate::verif::sync_point("hashing.done", "");
     groups.par_sort_by_key(|g| Reverse((g.file_len, g.file_hash.u128_prefix())));
     groups
         .par_iter_mut()
@@ -1271,6 +1291,8 @@ pub fn write_report(
     log: &dyn Log,
     groups: &[FileGroup<FileInfo>],
 ) -> io::Result<()> {
+    #[cfg(fclones_verif)]
+    crate::verif::sync_point("report.timestamp", "");
     let now = Local::now();
 
     let total_count = file_count(groups.iter());
